@@ -194,6 +194,33 @@ class Deriver:
         self.base = Ctx(skipws, ws if ws is not None else '\t\n\r ')
         self.budget = 400
 
+    def cost(self, e):
+        """minimal number of tokens needed to derive e (fixpoint over rules; used to stop recursive grammars)"""
+        if not hasattr(self, '_rcost'):
+            INF = 10 ** 6
+            self._rcost = {rl.name: INF for rl in self.g.rules}
+            for _ in range(len(self.g.rules) + 2):
+                for rl in self.g.rules:
+                    self._rcost[rl.name] = min(INF, self._cost(rl.body))
+        return self._cost(e)
+
+    def _cost(self, e):
+        if isinstance(e, (Lit, Re)):
+            return 1
+        if isinstance(e, Ref):
+            return self._rcost.get(e.name, 1)
+        if isinstance(e, (Seq, Unord)):
+            return sum(self._cost(x) for x in e.items)
+        if isinstance(e, Choice):
+            return min(self._cost(x) for x in e.alts)
+        if isinstance(e, Rep):
+            return self._cost(e.e) if e.min else 0
+        if isinstance(e, Assign):
+            if e.op in ('*=', '?='):
+                return 0
+            return self._cost(Ref(e.rhs.rule) if isinstance(e.rhs, ObjRef) else e.rhs)
+        return 0
+
     def gap(self, ctx):
         if not ctx.skipws:
             return ''
@@ -258,6 +285,8 @@ class Deriver:
         if isinstance(e, Seq):
             return ''.join(self.d(x, ctx) for x in e.items)
         if isinstance(e, Choice):
+            if self.budget <= 0:
+                return self.d(min(e.alts, key=self.cost), ctx)
             return self.d(r.choice(e.alts), ctx)
         if isinstance(e, Opt):
             return self.d(e.e, ctx) if (r.random() < 0.6 and self.budget > 0) else ''
